@@ -27,6 +27,15 @@ CHECKS = {
         "opposite order; AXILiteClockDomainCrossing/UART/Monitor crossings use the same AsyncFIFO/MultiReg primitives and "
         "are not run separately yet.",
    tech="deterministic simulation, seeded clock-edge interleaving + per-bit synchroniser-resolution fault injection + reset pulses"),
+ "C06": dict(cat="exploration", ref="DESIGN.md 5.C06",
+   text="Real Wishbone Arbiter/Decoder/InterconnectShared/Crossbar/PointToPoint (1-3 x 1-3, registered or combinational "
+        "decode, windows from the real SoCRegion.decoder, holes) driven by seeded classic-cycle masters (back-to-back, cyc "
+        "held or dropped, simultaneous starts, withdrawn requests to unmapped addresses) against memory slaves with literal "
+        "latencies/err answers; per-cycle routing, attribution, ownership and termination invariants plus a reference-memory "
+        "history oracle, write-landing and fairness checks. Sampling, not proof.",
+   note="Agent slaves have latency >= 1; zero-latency answers come from a harness FHDL slave with combinational decode only. "
+        "Timeouts are C11.",
+   tech="deterministic simulation, seeded request/latency schedule search, per-cycle routing invariants + reference-memory history"),
  "C16": dict(cat="exploration", ref="DESIGN.md 5.C16",
    text="Seeded search over header definitions, data widths, packet lists, valid/ready schedules and selector changes for "
         "Packetizer, Depacketizer, their round trip, PacketFIFO, Arbiter and Dispatcher on the real simulator; outputs "
